@@ -584,3 +584,24 @@ Lemma cycle_wrap_refuted :
 Proof.
   split; [intros (_ & H & _); vm_compute in H; discriminate H|vm_compute; reflexivity].
 Qed.
+
+(** * Corollaries in the form of the property text *)
+
+(** firstInCycle is min{m | S m >= start of the cycle of n} and lies in the same cycle *)
+Lemma firstInCycle_min r loopMS cycle n : wf r loopMS -> 0 < cycle -> 0 <= n ->
+  0 <= firstInCycle r cycle n <= n /\
+  forall j, 0 <= j -> (cycleStart r cycle n <= S r j <-> firstInCycle r cycle n <= j).
+Proof.
+  intros W Hc Hn. destruct (firstInCycle_spec r loopMS W cycle n Hc Hn) as [Hf Hle].
+  split; [destruct Hf; lia|]. exact (isFirst_min r loopMS W _ _ Hf).
+Qed.
+
+(** one pattern: the code iff the representation matches and n is the rsq-th segment of its cycle *)
+Lemma scheduled_single r ss repID n base :
+  scheduled r [ss] repID n base =
+  if repInReps repID (sc_reps ss) && (n - firstInCycle r (sc_cycle ss) n =? sc_rsq ss)
+  then (if sc_code ss =? 0 then base else sc_code ss) else base.
+Proof.
+  unfold scheduled. cbn [scheduleCode].
+  destruct (repInReps repID (sc_reps ss) && (n - firstInCycle r (sc_cycle ss) n =? sc_rsq ss)); reflexivity.
+Qed.
